@@ -48,7 +48,7 @@ fn q_sel(d: Dialect, s: &mut SelectStatement) -> String {
     s.build_collect_any(qb(d), &mut out)
 }
 
-pub const POSITIONS: [&str; 65] = [
+pub const POSITIONS: [&str; 67] = [
     "select.from.table",
     "select.from.schema_of_schema.table",
     "select.from.table_of_schema.table",
@@ -114,6 +114,8 @@ pub const POSITIONS: [&str; 65] = [
     "func.cast_as_quoted_type",
     "table.alter.modify_column",
     "table.alter.second_modify_column",
+    "lock.of_aliased_table",
+    "index.drop.name_of_schema_table",
 ];
 
 /// Render with identifier `v` in position `p`. None = not applicable for this backend.
@@ -243,6 +245,26 @@ fn render(p: &str, d: Dialect, v: &str) -> Option<String> {
                     .from(a("t"))
                     .lock_with_tables(LockType::Update, [a(v)]),
             )
+        }
+        "lock.of_aliased_table" => {
+            if lite {
+                return None;
+            }
+            // the lock list names a table reference that carries an alias
+            q_sel(
+                d,
+                Query::select()
+                    .column(a("c"))
+                    .from_as(a("t"), a(v))
+                    .lock_with_tables(LockType::Update, [TableRef::TableAlias(a("t"), a(v))]),
+            )
+        }
+        "index.drop.name_of_schema_table" => {
+            if !pg {
+                return None;
+            }
+            // Postgres names the index with its table's schema
+            Index::drop().name(v).table((a("sch"), a("t"))).build_any(s)
         }
         "mysql.index_hint" => {
             if !my {
